@@ -251,6 +251,7 @@ def run(ctx):
                    "an uncleaned spelling enters the common prefix: `cd sub && redo ../x/a` in a project without .redo puts the state directory into sub/, where no other spelling of x/a finds it")
         ctx.floor("R15.10", "target directories entering the common prefix in Env::init", n, 1)
     realdirpath_rules(ctx, "R15.9")
+    dangling_link_rule(ctx, "R15.11")
 
 
 def realdirpath_rules(ctx, rid):
@@ -261,7 +262,9 @@ def realdirpath_rules(ctx, rid):
     prog = ctx.prog
     rd = prog.one(r"state::realdirpath")
     rba = BA.of(rd)
-    canon = rba.calls(r"std::path::Path::canonicalize|std::fs::canonicalize")
+    CANON = r"std::path::Path::canonicalize|std::fs::canonicalize"
+    helpers_ = sorted(k for k, b_ in prog.bodies.items() if k.startswith("state::") and k != rd.key and BA.of(b_).calls(CANON))
+    canon = rba.calls(CANON + "".join("|" + re.escape(k) for k in helpers_))
     ctx.floor(rid, "canonicalize calls in realdirpath", len(canon), 1)
     if not canon:
         return
@@ -349,11 +352,17 @@ def realdirpath_rules(ctx, rid):
         # the resolved path: the Ok payload of those calls (not the error, which may legitimately be returned as it is)
         dests = {rd.blocks[c]["term"]["dest"]["l"] for c in later}
         seeds = set()
+        # .. also when the payload is taken out with `?` (Try::branch -> Continue)
+        branched = {rd.blocks[i]["term"]["dest"]["l"] for i in rba.all_calls()
+                    if any(re.fullmatch(r"(<.* as )?core::ops::try_trait::Try>?::branch", q) for q in callee_paths(rd.blocks[i]["term"]))
+                    and op_local(rd.blocks[i]["term"]["args"][0]) in dests}
         for b_ in rd.blocks:
             for s_ in b_["stmts"]:
                 if s_["s"] == "assign" and s_["rv"]["k"] == "use":
                     pl = op_place(s_["rv"]["op"])
                     if pl is not None and pl["l"] in dests and any(e == "as:Ok" for e in pl["p"]):
+                        seeds.add(s_["place"]["l"])
+                    if pl is not None and pl["l"] in branched and any(e == "as:Continue" for e in pl["p"]):
                         seeds.add(s_["place"]["l"])
         tn = taint(rd, seeds=seeds, mode="derived") if seeds else set()
         ok_vals = [op_local(o) for b_ in rd.blocks for s_ in b_["stmts"] if s_["s"] == "assign" and s_["place"]["l"] == 0 and not s_["place"]["p"]
@@ -362,6 +371,38 @@ def realdirpath_rules(ctx, rid):
         ctx.ob(rid, "realdirpath|NotFound#%d|existing-part-still-resolved" % n, ok, where=ctx.where(rd, sw),
                detail="when the directory does not exist (yet), symbolic links in the part that exists are still resolved" if ok else
                "when canonicalize() reports NotFound the directory part is only cleaned lexically: link/new/x is recorded under that spelling and becomes real/new/x - another record that finds the file existing and not generated - once the .do has created `new`")
+
+
+def dangling_link_rule(ctx, rid):
+    """R15.11 (F-AJ): where realdirpath resolves only the existing part of a directory (the walk over its ancestors), the
+    component right below the resolved prefix is looked at as a directory entry (read_link / lstat): a dangling symbolic
+    link is followed by hand. Otherwise `link/x` (link -> store, store/ made later by the .do) is recorded under that
+    spelling and becomes `store/x` - a second record - as soon as the destination exists."""
+    prog = ctx.prog
+    ctx.rule(rid, "realdirpath, existing-part resolution: the first component that canonicalize() could not resolve is examined with read_link / symlink_metadata, so that a dangling symbolic link is followed the way the kernel will follow it once its destination exists (one name for one file, before and after)")
+    rd = prog.one(r"state::realdirpath")
+    bodies = [rd]
+    for q in sorted({q for i in BA.of(rd).all_calls() for q in callee_paths(rd.blocks[i]["term"])}):
+        b = prog.bodies.get(q)
+        if b is not None and b.key.startswith("state::") and b not in bodies:
+            bodies.append(b)
+    n = 0
+    for b in bodies:
+        ba = BA.of(b)
+        anc = ba.calls(r"std::path::Path::ancestors")
+        if not anc:
+            continue
+        cs = [c for c in ba.calls(r"std::path::Path::canonicalize|std::fs::canonicalize") if any(ba.path([a], [c], incl=True) is not None for a in anc)]
+        if not cs:
+            continue
+        n += 1
+        tn = taint(b, seeds={b.blocks[c]["term"]["dest"]["l"] for c in cs}, mode="derived")
+        probes = [i for i in ba.calls(r"std::fs::read_link|std::path::Path::read_link|std::path::Path::symlink_metadata|std::fs::symlink_metadata|std::path::Path::is_symlink")
+                  if any(op_local(a_) is not None and (op_local(a_) in tn or any(x in tn for x in ba.ref_chain(op_local(a_)))) for a_ in b.blocks[i]["term"]["args"])]
+        ctx.ob(rid, "realdirpath|existing-prefix#%d|next-component-examined-as-a-link" % n, bool(probes), where=ctx.where(b, cs[0]),
+               detail="the component below the resolved prefix is checked for being a symbolic link" if probes else
+               "a dangling symbolic link below the existing prefix is kept literally: the name of link/x changes to <destination>/x once the destination exists - a second record that finds the file existing and not generated")
+    ctx.floor(rid, "existing-prefix resolutions in realdirpath", n, 1)
 
 
 def _key_is_relpath(fn):
